@@ -14,6 +14,24 @@ VERIF = os.path.dirname(HERE)
 IDS = [f"C{i:02d}" for i in range(1, 21)]
 
 
+def read_meta(pid: str) -> dict:
+    """The literal META dict of vf/props/<pid>.py (may carry 'technique',
+    'level_text', 'level_note')."""
+    import ast
+    path = os.path.join(VERIF, "vf", "props", f"{pid.lower()}.py")
+    if not os.path.exists(path):
+        return {}
+    with open(path, encoding="utf-8") as f:
+        tree = ast.parse(f.read())
+    for node in tree.body:
+        if isinstance(node, ast.Assign) and len(node.targets) == 1 \
+                and getattr(node.targets[0], "id", None) == "META":
+            meta = ast.literal_eval(node.value)
+            return {k: v for k, v in meta.items()
+                    if k in ("technique", "level_text", "level_note")}
+    return {}
+
+
 def main() -> int:
     with open(os.path.join(HERE, "manifest_texts.json"),
               encoding="utf-8") as f:
@@ -21,7 +39,8 @@ def main() -> int:
     checks = []
     na = []
     for pid in IDS:
-        t = texts.get(pid, {})
+        t = dict(texts.get(pid, {}))
+        t.update(read_meta(pid))
         have = os.path.exists(
             os.path.join(VERIF, "vf", "props", f"{pid.lower()}.py"))
         if have and not t.get("not_applicable"):
